@@ -270,8 +270,266 @@ def r_replace(ctx, a):
                    {'x': x, 'rep': rep, 'got': r})
 
 
+
+# ---------------------------------------------------------------------------
+# pytrees of arrays
+# ---------------------------------------------------------------------------
+def leaf_data(i, shape):
+    n = int(np.prod(shape)) if len(shape) else 1
+    return (((np.arange(n) * 7 + i * 13) % 64) / 4.0 - 5.0).reshape(shape)
+
+def build(struct, leaves):
+    if isinstance(struct, dict):
+        if 'L' in struct and len(struct) == 1 and isinstance(struct['L'], int):
+            return leaves[struct['L']]
+        return {k: build(v, leaves) for k, v in struct.items()}
+    return [build(v, leaves) for v in struct]
+
+def rand_struct(rng, n):
+    """random nesting of n leaves into dicts/lists; leaf i is {'L': i}"""
+    items = [{'L': i} for i in range(n)]
+    rng.shuffle(items)
+    def nest(xs, depth):
+        if len(xs) <= 1 and depth > 0 and rng.random() < 0.7:
+            return xs[0] if xs else {}
+        if depth >= 3 or len(xs) <= 1:
+            kind = rng.random() < 0.5
+            return {('k%d' % j): x for j, x in enumerate(xs)} if kind else list(xs)
+        cut = int(rng.integers(0, len(xs) + 1))
+        parts = [nest(xs[:cut], depth + 1), nest(xs[cut:], depth + 1)]
+        if rng.random() < 0.5:
+            return {'t': parts[0], 'a': parts[1]}
+        return parts
+    st = nest(items, 0)
+    if isinstance(st, dict) and 'L' in st and len(st) == 1:
+        st = {'only': st}
+    return st
+
+def rows(x, axis):
+    x = np.asarray(x)
+    m = np.moveaxis(x, axis, 0)
+    return m.reshape(m.shape[0], int(np.prod(m.shape[1:])))
+
+def spec_of(leaves, axis):
+    out = []
+    for x in leaves:
+        r = rows(x, axis); out += [r.shape[1], r.shape[0]]
+    return out
+
+def enc_leaves(leaves, axis):
+    out = [len(leaves)] + [rows(x, axis).shape[0] for x in leaves]
+    for x in leaves: out += rows(x, axis).ravel().tolist()
+    return [float(v) for v in out]
+
+def flo(m):
+    return None if m is None else [float(v) for v in m]
+
+def same_tree(jax, a, b):
+    la, ta = jax.tree_util.tree_flatten(a); lb, tb = jax.tree_util.tree_flatten(b)
+    return ta == tb and len(la) == len(lb) and all(
+        np.asarray(x).shape == np.asarray(y).shape and np.array_equal(np.asarray(x), np.asarray(y)) for x, y in zip(la, lb))
+
+def gen_arrays(ctx):
+    rng = ctx.rng
+    quick = ctx.tier == 'quick'
+    n = 25 if quick else 250
+    for i in range(n):
+        nl = int(rng.integers(0, 6)) if i % 6 else 0
+        ndim = int(rng.integers(1, 5))
+        axis = int(rng.integers(-ndim, ndim))
+        other = [int(rng.integers(1, 4)) for _ in range(ndim)]
+        shapes = []
+        for _ in range(nl):
+            sh = list(other); sh[axis] = int(rng.integers(0, 5)); shapes.append(sh)
+        yield 'pack', {'struct': rand_struct(rng, nl), 'shapes': shapes, 'axis': axis}
+    for i in range(n):
+        nl = int(rng.integers(0, 5)) if i % 6 else 0
+        ndim = int(rng.integers(0, 4))
+        shape = [int(rng.integers(1, 4)) for _ in range(ndim)]
+        axis = int(rng.integers(-(ndim + 1), ndim + 1))
+        yield 'stack', {'struct': rand_struct(rng, nl), 'shape': shape, 'n': nl, 'axis': axis}
+    for i in range(n):
+        nl = int(rng.integers(1, 5))
+        same = bool(i % 2)
+        ndim0 = int(rng.integers(1, 4))
+        shapes = []
+        for _ in range(nl):
+            ndim = ndim0 if same else int(rng.integers(1, 4))
+            shapes.append([int(rng.integers(0 if rng.random() < 0.1 else 1, 6)) for _ in range(ndim)])
+        mind = min(len(sh) for sh in shapes)
+        axis = int(rng.integers(-mind, mind)) if same else int(rng.integers(0, mind))
+        yield 'split', {'struct': rand_struct(rng, nl), 'shapes': shapes, 'axis': axis, 'same': same,
+                        'idx': int(rng.integers(-8, 9))}
+    for i in range(n):
+        nl = int(rng.integers(0, 4)) if i % 7 else 0
+        ndim = int(rng.integers(1, 4))
+        axis = int(rng.integers(-ndim, ndim))
+        nax = int(rng.integers(0 if i % 5 == 0 else 1, 5))
+        shapes = []
+        for j in range(nl):
+            sh = [int(rng.integers(1, 4)) for _ in range(ndim)]
+            sh[axis] = nax + (1 if (i % 9 == 0 and j == nl - 1) else 0)   # sometimes unequal: must raise
+            shapes.append(sh)
+        yield 'split_axis', {'struct': rand_struct(rng, nl), 'shapes': shapes, 'axis': axis, 'keep': bool(i % 2)}
+    for i in range(n):
+        nt = int(rng.integers(0 if i % 8 == 0 else 1, 4))
+        nl = int(rng.integers(1, 4))
+        ndim = int(rng.integers(1, 4))
+        axis = int(rng.integers(-ndim, ndim))
+        others = [[int(rng.integers(1, 4)) for _ in range(ndim)] for _ in range(nl)]
+        trees = []
+        for t in range(nt):
+            k = nl - 1 if (i % 10 == 0 and t == nt - 1 and nl > 1) else nl   # sometimes a structure mismatch
+            shs = []
+            for j in range(k):
+                sh = list(others[j]); sh[axis] = int(rng.integers(0, 4)); shs.append(sh)
+            trees.append(shs)
+        yield 'concat', {'trees': trees, 'axis': axis}
+
+
+def _mk(a, shapes_key='shapes'):
+    leaves = [leaf_data(i, tuple(sh)) for i, sh in enumerate(a[shapes_key])]
+    return leaves, build(a['struct'], leaves)
+
+
+def r_pack(ctx, a):
+    jax, jnp, pu = J()
+    _, tree = _mk(a); axis = a['axis']
+    leaves = [np.asarray(x) for x in jax.tree_util.tree_leaves(tree)]
+    ctx.count('pack:leaves=%d' % len(leaves))
+    packed = pu.pack_pytree(tree, axis)
+    m = ctx.model.call(10, spec_of(leaves, axis), [rows(x, axis).ravel() for x in leaves])
+    ctx.exact('pack_pytree', [0.0] if packed is None else [1.0] + rows(packed, axis).ravel().tolist(), flo(m))
+    if not leaves:
+        ctx.oracle('empty pytree packs to None', packed is None)
+        return
+    shapes = pu.shape_structure(tree)
+    un = pu.unpack_to_pytree(packed, shapes, axis)
+    sizes = [x.shape[axis] for x in leaves]
+    pr = rows(packed, axis)
+    m = ctx.model.call(11, [pr.shape[1], pr.shape[0]] + sizes, [pr.ravel()])
+    ctx.exact('unpack_to_pytree', [1.0] + enc_leaves(jax.tree_util.tree_leaves(un), axis), flo(m))
+    ctx.oracle('unpack_to_pytree(pack_pytree(t)) == t', same_tree(jax, un, tree), {'shapes': a['shapes'], 'axis': axis})
+    ctx.oracle('packed size along the axis is the sum of the leaf sizes', np.asarray(packed).shape[axis] == sum(sizes))
+
+
+def r_stack(ctx, a):
+    jax, jnp, pu = J()
+    leaves0 = [leaf_data(i, tuple(a['shape'])) for i in range(a['n'])]
+    tree = build(a['struct'], leaves0); axis = a['axis']
+    leaves = [np.asarray(x) for x in jax.tree_util.tree_leaves(tree)]
+    st = pu.stack_pytree(tree, axis)
+    m = ctx.model.call(12, [], [x.ravel() for x in leaves])
+    ctx.exact('stack_pytree', [0.0] if st is None else [1.0] + rows(st, axis).ravel().tolist(), flo(m))
+    if not leaves:
+        ctx.oracle('empty pytree stacks to None', st is None)
+        return
+    shapes = pu.shape_structure(tree)
+    un = pu.unstack_to_pytree(st, shapes, axis)
+    sr = rows(st, axis)
+    m = ctx.model.call(13, [sr.shape[1], sr.shape[0], len(leaves)], [sr.ravel()])
+    ul = jax.tree_util.tree_leaves(un)
+    ctx.exact('unstack_to_pytree', [1.0, float(len(ul))] + [float(v) for x in ul for v in np.asarray(x).ravel()], flo(m))
+    ctx.oracle('unstack_to_pytree(stack_pytree(t)) == t', same_tree(jax, un, tree), {'shape': a['shape'], 'axis': axis})
+
+
+def r_split(ctx, a):
+    jax, jnp, pu = J()
+    _, tree = _mk(a); axis = a['axis']; idx = a['idx']
+    leaves = [np.asarray(x) for x in jax.tree_util.tree_leaves(tree)]
+    first, second = pu.split_along_axis(tree, idx, axis, expect_same_dims=a['same'])
+    f = jax.tree_util.tree_leaves(first); s2 = jax.tree_util.tree_leaves(second)
+    axes = [axis if axis >= 0 else axis + x.ndim for x in leaves]
+    # model: leafwise, each leaf seen along its own axis
+    imp = []; spec = []; arrs = []
+    for x, ax in zip(leaves, axes):
+        r = rows(x, ax); spec += [r.shape[1], r.shape[0]]; arrs.append(r.ravel())
+    def enc(ls):
+        out = [len(ls)] + [rows(x, ax).shape[0] for x, ax in zip(ls, axes)]
+        for x, ax in zip(ls, axes): out += rows(x, ax).ravel().tolist()
+        return [float(v) for v in out]
+    m = ctx.model.call(14, [idx] + spec, arrs)
+    ctx.exact('split_along_axis', enc(f) + enc(s2), flo(m))
+    back = pu.concat_along_axis([first, second], axis)
+    fs = []; specs = []
+    for x, y, ax in zip(f, s2, axes):
+        pass
+    allspec = []; allarr = []
+    for ls in (f, s2):
+        for x, ax in zip(ls, axes):
+            r = rows(x, ax); allspec += [r.shape[1], r.shape[0]]; allarr.append(r.ravel())
+    m = ctx.model.call(15, [2, len(f), len(s2)] + allspec, allarr)
+    ctx.exact('concat_along_axis', [1.0] + enc(jax.tree_util.tree_leaves(back)), flo(m))
+    ctx.oracle('concat_along_axis(split_along_axis(t, i)) == t', same_tree(jax, back, tree),
+               {'shapes': a['shapes'], 'axis': axis, 'idx': idx})
+
+
+def r_split_axis(ctx, a):
+    jax, jnp, pu = J()
+    _, tree = _mk(a); axis = a['axis']; keep = a['keep']
+    leaves = [np.asarray(x) for x in jax.tree_util.tree_leaves(tree)]
+    try:
+        out = pu.split_axis(tree, axis, keep_dims=keep)
+    except (ValueError, ZeroDivisionError, TypeError):
+        out = None
+    m = ctx.model.call(16, [int(keep)] + spec_of(leaves, axis), [rows(x, axis).ravel() for x in leaves])
+    if out is None:
+        imp = [0.0]
+    else:
+        imp = [1.0, float(len(out))]
+        for t in out:
+            tl = jax.tree_util.tree_leaves(t)
+            if keep:
+                imp += enc_leaves(tl, axis)
+            else:
+                imp += [float(len(tl))] + [float(v) for x in tl for v in np.asarray(x).ravel()]
+    ctx.exact('split_axis', imp, flo(m))
+    ctx.count('split_axis:' + ('ok' if out is not None else 'raises'))
+    sizes = {x.shape[axis] for x in leaves}
+    ctx.oracle('split_axis raises iff the axis sizes are not all equal (or the tree/axis is empty)',
+               (out is None) == (len(sizes) != 1 or 0 in sizes), {'shapes': a['shapes']})
+    if out is not None:
+        ctx.oracle('split_axis returns one pytree per index', len(out) == leaves[0].shape[axis])
+        if keep:
+            back = pu.concat_along_axis(list(out), axis)
+            ctx.oracle('concat_along_axis(split_axis(t, keep_dims=True)) == t', same_tree(jax, back, tree), {'shapes': a['shapes'], 'axis': axis})
+        else:
+            ok = all(same_tree(jax, t, jax.tree_util.tree_map(lambda x: np.take(np.asarray(x), i, axis=axis), tree))
+                     for i, t in enumerate(out))
+            ctx.oracle('split_axis(t)[i] is the i-th slice of every leaf', ok, {'shapes': a['shapes'], 'axis': axis})
+
+
+def r_concat(ctx, a):
+    jax, jnp, pu = J()
+    axis = a['axis']
+    trees = []; c = 0
+    for shs in a['trees']:
+        t = {}
+        for j, sh in enumerate(shs):
+            t['k%d' % j] = leaf_data(c, tuple(sh)); c += 1
+        trees.append(t)
+    try:
+        out = pu.concat_along_axis(trees, axis)
+    except (ValueError, TypeError):
+        out = None
+    spec = []; arrs = []
+    for t in trees:
+        for x in jax.tree_util.tree_leaves(t):
+            r = rows(x, axis); spec += [r.shape[1], r.shape[0]]; arrs.append(r.ravel())
+    m = ctx.model.call(15, [len(trees)] + [len(t) for t in trees] + spec, arrs)
+    ctx.exact('concat_along_axis (n trees)', [0.0] if out is None else [1.0] + enc_leaves(jax.tree_util.tree_leaves(out), axis), flo(m))
+    ctx.count('concat:' + ('ok' if out is not None else 'raises'))
+    if out is not None and trees:
+        # splitting the result at the recorded sizes gives the parts back
+        n0 = [x.shape[axis] for x in jax.tree_util.tree_leaves(trees[0])]
+        if len(set(n0)) == 1:
+            f, s2 = pu.split_along_axis(out, n0[0], axis if axis >= 0 else axis, expect_same_dims=True)
+            ctx.oracle('split_along_axis(concat_along_axis(ts), n0)[0] == ts[0]', same_tree(jax, f, trees[0]), {'trees': a['trees']})
+
 def generate(ctx):
     yield from gen_dicts(ctx)
+    yield from gen_arrays(ctx)
 
 
-RUNNERS = {'dict': r_dict, 'unflatten': r_unflatten, 'replace': r_replace}
+RUNNERS = {'dict': r_dict, 'unflatten': r_unflatten, 'replace': r_replace, 'pack': r_pack, 'stack': r_stack,
+           'split': r_split, 'split_axis': r_split_axis, 'concat': r_concat}
